@@ -79,19 +79,75 @@ func c17Once(c *Ctx, get *ssa.Function) {
 			return
 		}
 		ndyn++
-		fromMap := false
-		v := call.Call.Value
-		if ta, ok := v.(*ssa.TypeAssert); ok {
-			if ex, ok := ta.X.(*ssa.Extract); ok && ex.Index == 0 {
-				if mc, ok := ex.Tuple.(*ssa.Call); ok {
+		// every value that may arrive (through phis and type assertions) is the
+		// first result of Load / LoadOrStore
+		seenV := map[ssa.Value]bool{}
+		var fromMapV func(v ssa.Value) bool
+		fromMapV = func(v ssa.Value) bool {
+			if seenV[v] {
+				return true
+			}
+			seenV[v] = true
+			switch x := v.(type) {
+			case *ssa.TypeAssert:
+				return fromMapV(x.X)
+			case *ssa.ChangeInterface:
+				return fromMapV(x.X)
+			case *ssa.Phi:
+				for _, e := range x.Edges {
+					if !fromMapV(e) {
+						return false
+					}
+				}
+				return len(x.Edges) > 0
+			case *ssa.Extract:
+				if x.Index != 0 {
+					return false
+				}
+				if mc, ok := x.Tuple.(*ssa.Call); ok {
 					n := core.CalleeName(&mc.Call)
-					fromMap = n == "(*sync.Map).LoadOrStore" || n == "(*sync.Map).Load"
+					return n == "(*sync.Map).LoadOrStore" || n == "(*sync.Map).Load"
 				}
 			}
+			return false
 		}
+		fromMap := fromMapV(call.Call.Value)
 		c.check(fromMap, "C17.once.runs-stored-loader", get, "Get runs the loader stored in the map (result of Load / LoadOrStore)", call,
 			"two goroutines racing on a new key both build a candidate; only the one LoadOrStore kept may run, otherwise the constructor runs twice")
 	})
+	// what Get returns is what a stored loader returned
+	for _, ret := range core.Returns(get) {
+		if len(ret.Results) != 1 {
+			continue
+		}
+		okRet := true
+		for _, lf := range core.Facts(get).Leaves(ret.Results[0], ret) {
+			call, isCall := lf.V.(*ssa.Call)
+			if !isCall || call.Call.IsInvoke() || call.Call.StaticCallee() != nil {
+				okRet = false
+			}
+		}
+		c.check(okRet, "C17.once.runs-stored-loader", get, "Get returns the result of the stored loader", ret,
+			"every caller receives the single constructed value through the per-key loader; a map entry used as the value itself is not that")
+	}
+	// the map is written by LoadOrStore only
+	for _, f := range c.P.Funcs("syncutil") {
+		for _, ci := range core.AllCalls(f) {
+			n := core.CalleeName(ci.Common())
+			if !strings.HasPrefix(n, "(*sync.Map).") || len(ci.Common().Args) == 0 {
+				continue
+			}
+			_, base, isF := core.IsLoadOfField(ci.Common().Args[0])
+			if !isF || core.NamedOf(base.Type()) != "OnceConstructor" {
+				continue
+			}
+			switch strings.TrimPrefix(n, "(*sync.Map).") {
+			case "Load", "LoadOrStore", "Range":
+			default:
+				c.check(false, "C17.once.runs-stored-loader", f, "call of "+n+" on the loaders map", ci, "entries are published by LoadOrStore only and never replaced: a replaced entry is a second value for the key")
+			}
+		}
+	}
 	if ndyn == 0 {
 		c.check(false, "C17.once.runs-stored-loader", get, "loader invocation", nil, "Get never invokes a stored loader")
 	}
@@ -301,15 +357,19 @@ func c17Sema(c *Ctx) {
 		c.check(okSel && sendIdx >= 0 && doneIdx >= 0, "C17.sema.acquire-shape", acq, "one blocking select: send on the semaphore channel / receive from ctx.Done()", sel,
 			"a slot is taken by the send; cancellation is observed while waiting")
 		if sel != nil {
+			facts := core.Facts(acq)
 			for _, ret := range core.Returns(acq) {
-				idx, known := selectBranch(ret, sel)
-				switch {
-				case core.IsNilConst(ret.Results[0]):
-					c.check(known && idx == sendIdx, "C17.sema.acquire-shape", acq, "nil is returned only after the send succeeded", ret, "a successful Acquire holds exactly one slot")
-				default:
-					call, ok := ret.Results[0].(*ssa.Call)
-					okErr := ok && call.Call.IsInvoke() && call.Call.Method.Name() == "Err" && call.Call.Value == ssa.Value(acq.Params[1])
-					c.check(okErr && known && idx == doneIdx, "C17.sema.acquire-shape", acq, "the ctx.Done() case returns ctx.Err()", ret, "the context's error is reported, and no slot is held")
+				// per value that may be returned, with the select branch of its path
+				for _, lf := range facts.Leaves(ret.Results[0], ret) {
+					idx, known := selectBranchFacts(lf.Facts, sel)
+					switch {
+					case core.IsNilConst(lf.V):
+						c.check(known && idx == sendIdx, "C17.sema.acquire-shape", acq, "nil is returned only after the send succeeded", ret, "a successful Acquire holds exactly one slot")
+					default:
+						call, ok := lf.V.(*ssa.Call)
+						okErr := ok && call.Call.IsInvoke() && call.Call.Method.Name() == "Err" && call.Call.Value == ssa.Value(acq.Params[1])
+						c.check(okErr && known && idx == doneIdx, "C17.sema.acquire-shape", acq, "the ctx.Done() case returns ctx.Err()", ret, "the context's error is reported, and no slot is held")
+					}
 				}
 			}
 		}
@@ -368,7 +428,15 @@ func c17Sema(c *Ctx) {
 
 // selectBranch finds which select case index guards the instruction.
 func selectBranch(in ssa.Instruction, sel *ssa.Select) (int, bool) {
+	var fs []core.Fact
 	for _, g := range core.GuardsOf(in) {
+		fs = append(fs, core.Fact{Cond: g.Cond, Truth: g.Truth})
+	}
+	return selectBranchFacts(fs, sel)
+}
+
+func selectBranchFacts(facts []core.Fact, sel *ssa.Select) (int, bool) {
+	for _, g := range facts {
 		b, ok := g.Cond.(*ssa.BinOp)
 		if !ok || b.Op != token.EQL || !g.Truth {
 			continue
